@@ -77,7 +77,8 @@ class LeakyTanh(AbstractBijection):
     def inverse(self, y, condition=None):
         is_linear = jnp.abs(y) >= jnp.tanh(self.max_val)
         x_linear = (y - jnp.sign(y) * self.intercept) / self.linear_grad
-        x_arctan = jnp.arctanh(y)
+        # arctanh is singular at +-1: use a safe input where the linear branch is selected
+        x_arctan = jnp.arctanh(jnp.where(is_linear, 0.0, y))
         return jnp.where(is_linear, x_linear, x_arctan)
 
     def inverse_and_log_det(self, y, condition=None):
